@@ -28,7 +28,9 @@ CLAIMED = {
     'C11': ('TLC trace validation of the persistence life cycle (lazy-lattice flag as state) vs Documents.tla; loaded objects compared with recomputed ones through full public observations', '6/C11'),
     'C13': ('TLC trace validation of the complete one-step relation, 2-step paths and random histories vs Definition.tla; DefSys.tla model checked (WF inductive, errors change nothing)', '6/C13'),
     'C14': ('TLC trace validation of all pairs x derivations x follow-up edits with every live handle logged (Frame clause) vs Definition.tla', '6/C14'),
+    'C15': ('TLC trace validation of relational clauses between the lattices of a context and of its permuted / transposed / duplicated variants (FCA.tla transformation operators; laws model checked in Theorems.tla)', '6/C15'),
     'C16': ('TLC trace validation vs Junctors.tla (occurring truth-value combinations)', '6/C16'),
+    'C17': ('joint TLC validation of K traces of one call corpus recorded under K PYTHONHASHSEED values', '6/C17'),
     'C18': ('TLC trace validation vs generator sets in shortlex order', '6/C18'),
     'C19': ('TLC enumerates every single/double corruption of every small valid input (ValSys.tla); outcomes of the real constructors validated by TLC vs Validation.tla', '6/C19'),
     'C20': ('TLC trace validation of the parsed DOT body vs Drawing.tla', '6/C20'),
@@ -36,8 +38,6 @@ CLAIMED = {
 
 NOT_YET = {
     'C12': 'not built yet in this revision (text-format traces and TLA+ writers are next in DESIGN.md section 12)',
-    'C15': 'not built yet in this revision (relational trace clauses are next in DESIGN.md section 12)',
-    'C17': 'not built yet in this revision (joint multi-seed trace validation is next in DESIGN.md section 12)',
 }
 
 
@@ -86,7 +86,7 @@ def main():
         f.write('\n')
 
 
-CTX_PROPS = {'C01', 'C02', 'C03', 'C04', 'C05', 'C06', 'C07', 'C08', 'C09', 'C10', 'C16', 'C18', 'C20'}
+CTX_PROPS = {'C15', 'C01', 'C02', 'C03', 'C04', 'C05', 'C06', 'C07', 'C08', 'C09', 'C10', 'C16', 'C18', 'C20'}
 TEXTS = {
     'C13': ('Design: DefSys.tla (one action per mutator over a bounded name universe) is model checked by TLC: WF is '
             'inductive, rejected calls change nothing, bools is well shaped. Conformance: the harness enumerates the '
@@ -103,6 +103,10 @@ TEXTS = {
             'seeds) with and without (lazily present) lattice and with random permutations under raw=True; TLC '
             'validates the exports field by field and that the full public observation of every loaded object equals '
             'that of a context recomputed from scratch; lattices up to a few thousand concepts.'),
+    'C17': ('Hyper-property: the same seeded call corpus is executed in K separate interpreter processes with different '
+            'PYTHONHASHSEED values; the K recorded traces are validated jointly by TLC (TraceDet.tla): call i must be '
+            'the same call with the same textual observation in all of them. The specification contributes that every '
+            'response is a function of state and arguments (DefSys/ContextSys actions are operators; model checked).'),
     'C19': ('Spec -> code -> spec: the inputs are the reachable states of ValSys.tla (valid seeds x at most two '
             'corruption steps, enumerated exhaustively by TLC, which also checks that every seed is valid and that '
             'the document and triple predicates agree); each is fed to the real Context(...) / Context.fromdict(...) '
